@@ -9,7 +9,11 @@
   (`toGlobal g r` = `_to_global_rank`, `recv g r` = `r is None or dist.get_rank(g) == r`, `notInit`,
   `wsOr1` / `meOr0` = toolkit's `_get_world_size` / `_get_rank`, `groupOrWorld`), loop / comprehension variables
   numbered by binding depth (`b k`), results of collectives and of calls of communicating functions numbered in
-  program order (`r n`), written containers named (`loc k`).
+  program order (`r n`), written containers named (`loc k`).  Normal forms the translator applies to every function (so that
+  behaviour-preserving rewritings of the source give the same table): the guard of an `ite` — node or term — is positive
+  (`is`, `eq`, `lt`, `le`, `in`, no `not`; the branches are swapped instead), so a guard clause `if not c: return` followed by
+  the rest is `ite c rest skip`; a `return None` in tail position is `skip` (falling off the end); `for i in range(len(S))`
+  that uses only `S[i]` is `forEach S`; a map / filter iterated by a comprehension is fused with it.
 
   * `Facts` / `WF`  — decidable facts about a table of skeletons the C02 / C15 proofs rest on;
   * `run`           — a small interpreter: the sequence of collective sites a member issues under a valuation of the
@@ -405,7 +409,7 @@ def ex_sync_tensor_states : FnSkel :=
      -- syncTensor: `sendTensors e t`
      (.call 0 "send_tensors" [(.v "my_state_data"), (.v "process_group"), (.v "rank")]),
      (.ite (c "is" [.none, (.r 0)])
-         (.ret .none)
+         .skip
          (.forEach 0 (c "enumerate" [(.r 0)])
              (.eff "store" [(c "getitem" [(c "getitem" [(c "getitem" [(.v "gathered_states"), (c "getitem" [(.b 0), (.int 0)])]), (.v "metric_name")]), (.v "state_name")]), (c "getitem" [(.b 0), (.int 1)])])))])⟩
 
@@ -415,12 +419,12 @@ def ex_sync_dtype_and_shape : FnSkel :=
    (seqs [
      -- syncDtypeShape: `allGatherObj (Obj.int (rankOrMinus1 e t))`
      (.coll 0 .allGatherObj
-         (payload := (c "ite" [(c "is_not" [.none, (.v "tensor")]), (c "dist.get_rank" [(.v "process_group")]), (.int (-1))]))
+         (payload := (c "ite" [(c "is" [.none, (.v "tensor")]), (.int (-1)), (c "dist.get_rank" [(.v "process_group")])]))
          (group := (.v "process_group"))
          (root := .none)
          (out := (c "repeat" [.none, (c "dist.get_world_size" [(.v "process_group")])]))),
      (.ite (c "eq" [(c "max" [(.r 0)]), (.int (-1))])
-         (.ret .none)
+         .skip
          (seqs [
            -- syncDtypeShapeK: `.coll (.broadcastObj gs (dtypePayload e t mx))`, `gs = toGlobal e mx`
            (.coll 1 .broadcastObj
@@ -451,7 +455,7 @@ def ex_sync_list_tensor_states : FnSkel :=
      (.ite (c "any" [(c "for" [(.b 0), (.r 0), (c "eq" [(.b 0), (.int 0)])])])
          (seqs [
            -- syncListK, some length is 0: `syncDtypeShape e xs.head?`
-           (.call 1 "_sync_dtype_and_shape" [(c "ite" [(c "gt" [(c "len" [(.v "my_state_data")]), (.int 0)]), (c "getitem" [(.v "my_state_data"), (.int 0)]), .none]), (.v "process_group")]),
+           (.call 1 "_sync_dtype_and_shape" [(c "ite" [(c "le" [(c "len" [(.v "my_state_data")]), (.int 0)]), .none, (c "getitem" [(.v "my_state_data"), (.int 0)])]), (.v "process_group")]),
            (.ite (c "is" [.none, (.r 1)])
                (seqs [
                  (.ite (c "recv" [(.v "process_group"), (.v "rank")])
@@ -464,7 +468,7 @@ def ex_sync_list_tensor_states : FnSkel :=
      (.forEach 0 (c "range" [(c "max" [(.r 0)])])
          (seqs [
            -- listRounds: `sendTensors e (roundTensor e xs d s i)`
-           (.call 2 "send_tensors" [(c "ite" [(c "ge" [(.b 0), (c "len" [(.v "my_state_data")])]), (c "torch.empty" [(c "ite" [(c "any" [(c "for" [(.b 0), (.r 0), (c "eq" [(.b 0), (.int 0)])])]), (c "getitem" [(.r 1), (.int 1)]), (c ".shape" [(c "getitem" [(.v "my_state_data"), (.int 0)])])]), (c "kw" [(.str "device"), (.v "device")]), (c "kw" [(.str "dtype"), (c "ite" [(c "any" [(c "for" [(.b 0), (.r 0), (c "eq" [(.b 0), (.int 0)])])]), (c "getitem" [(.r 1), (.int 0)]), (c ".dtype" [(c "getitem" [(.v "my_state_data"), (.int 0)])])])])]), (c "getitem" [(.v "my_state_data"), (.b 0)])]), (.v "process_group"), (.v "rank")]),
+           (.call 2 "send_tensors" [(c "ite" [(c "lt" [(.b 0), (c "len" [(.v "my_state_data")])]), (c "getitem" [(.v "my_state_data"), (.b 0)]), (c "torch.empty" [(c "ite" [(c "any" [(c "for" [(.b 0), (.r 0), (c "eq" [(.b 0), (.int 0)])])]), (c "getitem" [(.r 1), (.int 1)]), (c ".shape" [(c "getitem" [(.v "my_state_data"), (.int 0)])])]), (c "kw" [(.str "device"), (.v "device")]), (c "kw" [(.str "dtype"), (c "ite" [(c "any" [(c "for" [(.b 0), (.r 0), (c "eq" [(.b 0), (.int 0)])])]), (c "getitem" [(.r 1), (.int 0)]), (c ".dtype" [(c "getitem" [(.v "my_state_data"), (.int 0)])])])])])]), (.v "process_group"), (.v "rank")]),
            (.ite (c "is" [.none, (.r 2)])
                .skip
                (.forEach 1 (c "enumerate" [(.r 2)])
@@ -484,8 +488,8 @@ def ex_sync_dict_tensor_states : FnSkel :=
      -- syncDict: `syncList e (valuesByKeys kv ks) col`, `ks = sortKeys (kv.map (·.1))`
      (.call 0 "_sync_list_tensor_states" [(.v "metric_name"), (.v "state_name"), (.loc 0), (.v "device"), (.v "gathered_states"), (.v "process_group"), (.v "rank")]),
      (.ite (c "recv" [(.v "process_group"), (.v "rank")])
-         (.forEach 0 (c "range" [(c "len" [(.v "gathered_states")])])
-             (.eff "store" [(c "getitem" [(c "getitem" [(c "getitem" [(.v "gathered_states"), (.b 0)]), (.v "metric_name")]), (.v "state_name")]), (c "dict" [(c "zip" [(c "sorted" [(c ".keys()" [(.v "my_state_data")])]), (c "getitem" [(c "getitem" [(c "getitem" [(.v "gathered_states"), (.b 0)]), (.v "metric_name")]), (.v "state_name")])])])]))
+         (.forEach 0 (.v "gathered_states")
+             (.eff "store" [(c "getitem" [(c "getitem" [(.b 0), (.v "metric_name")]), (.v "state_name")]), (c "dict" [(c "zip" [(c "sorted" [(c ".keys()" [(.v "my_state_data")])]), (c "getitem" [(c "getitem" [(.b 0), (.v "metric_name")]), (.v "state_name")])])])]))
          .skip)])⟩
 
 /-- `synclib._sync_obj_states` ↔ `syncObj`: `dst = none` ⇒ `.allGatherObj o`, else `.gatherObj (toGlobal e d) (e.me == d) o`; `recvObjCol` / `finishObj` (`assignCol`). -/
